@@ -118,10 +118,23 @@ def alt_value(spec, key, cur, rng, est=None):
     return None, False
 
 
-def expected_after(before, update):
+PREFIX = {"ClassifierAfterKMeans": {"clus": "c_", "estimator": "e_"}}   # advertised naming of nested keys
+
+
+def expected_after(before, update, cls=None):
     """The contract: exactly the given keys change (plus the nested keys of a replaced sub-estimator)."""
     import re
     exp = dict(before)
+    pmap = PREFIX.get(cls, {})
+    for k in [k for k in update if k in pmap]:
+        v = update[k]
+        exp[k] = v
+        for kk in [x for x in exp if x.startswith(pmap[k]) and x not in pmap]:
+            del exp[kk]
+        for kk, vv in v.get_params(deep=True).items():
+            if "__" not in kk:
+                exp[pmap[k] + kk] = vv
+    update = {k: v for k, v in update.items() if k not in pmap}
     # containers first, nested keys afterwards (the order scikit-learn applies them in)
     for k in sorted(update, key=lambda s: s.count("__")):
         v = update[k]
@@ -270,7 +283,7 @@ def run_keys(case, ctx):
             if after is None:
                 continue
             ctx.hit("set_params.key")
-            exp = expected_after(before, {key: val})
+            exp = expected_after(before, {key: val}, spec.name)
             d = diff_params(after, exp)
             if d:
                 own = [x for x in d if x.startswith(key + "=") or x.startswith(key + " ")]
@@ -479,7 +492,7 @@ def run_history(case, ctx):
         got = safe_get(est, ctx, K, cfg)
         if got is None:
             return
-        exp = expected_after(shadow, upd)
+        exp = expected_after(shadow, upd, spec.name)
         d = diff_params(got, exp)
         if d:
             kinds = sorted({key_kind(k) for k in upd})
